@@ -88,6 +88,24 @@ func HarnessC19Names(a []int) {
 		_, ok := Produce(n)
 		verifAssert("C19.listed_producible", ok)
 	}
+	// the listing handed out belongs to the caller: overwriting it (an in-place filter, a sort)
+	// changes neither the registry nor what the next caller is told
+	first := append([]string(nil), names...)
+	for i := range names {
+		names[i] = "0.000"
+	}
+	names = names[:0]
+	again := ListSupportedTypes()
+	verifAssert("C19.listing_independent.count", len(again) == len(first))
+	seen := map[string]bool{}
+	for _, n := range again {
+		seen[n] = true
+	}
+	for _, n := range first {
+		verifAssert("C19.listing_independent.same_names", seen[n])
+		_, ok := Produce(n)
+		verifAssert("C19.listing_independent.still_producible", ok)
+	}
 	verifCover("C19.names.end")
 }
 
